@@ -140,15 +140,15 @@ def fragment() -> Dict[str, Any]:
 
 
 FIXED: List[str] = [
-    "fixed: property=C13 (round 3) stream whose /Length refers to the stream itself: RecursionError in getobj",
-    "fixed: property=C13 (round 3) negative or oversized /Length: wrong data / OverflowError",
-    "fixed: property=C13 (round 3) inline image with /F that is neither name nor non-empty array: TypeError/IndexError/KeyError",
-    "fixed: property=C13 (round 3) number tree (PageLabels) with cyclic /Kids: RecursionError",
-    "fixed: property=C13 (round 3) /Prev or /XRefStm beyond the largest file offset: OverflowError from seek",
-    "fixed: property=C13 (round 3) colour space with absurd /N: MemoryError/OverflowError in _initial_color",
-    "fixed: property=C13 (round 3) absurd predictor /Columns: MemoryError from PDFStream.decode",
-    "fixed: property=C13 (round 3) CCITTFaxDecode with non-dictionary DecodeParms: AttributeError",
-    "fixed: property=C13 (round 3) image export with implausible Width/Height/BitsPerComponent: TypeError/struct.error in ImageWriter",
+    "fixed: property=C13 b008bbf stream whose /Length refers to the stream itself: RecursionError in getobj",
+    "fixed: property=C13 9e1c212 negative or oversized /Length: wrong data / OverflowError",
+    "fixed: property=C13 be941ec inline image with /F that is neither name nor non-empty array: TypeError/IndexError/KeyError",
+    "fixed: property=C13 0600ab2 number tree (PageLabels) with cyclic /Kids: RecursionError",
+    "fixed: property=C13 8b1ab59 /Prev or /XRefStm beyond the largest file offset: OverflowError from seek",
+    "fixed: property=C13 7cdbd5f colour space with absurd /N: MemoryError/OverflowError in _initial_color",
+    "fixed: property=C13 a2c64ac absurd predictor /Columns: MemoryError from PDFStream.decode",
+    "fixed: property=C13 79a7e11 CCITTFaxDecode with non-dictionary DecodeParms: AttributeError",
+    "fixed: property=C13 fb38caf image export with implausible Width/Height/BitsPerComponent: TypeError/struct.error in ImageWriter",
     "fixed: property=C13 be736a1 resolve1 looped forever on a circular chain of indirect references (6 0 obj 6 0 R, 2-cycles)",
     "fixed: property=C13 0293c3a resolve_all recursed without end on circular references",
     "fixed: property=C13 46a54ec PDFStream.decode leaked decoder-internal errors (binascii.Error, ValueError, IndexError, RuntimeError/StopIteration, TypeError) on damaged LZW/ASCII85/ASCIIHex/RunLength data, predictors and DecodeParms",
